@@ -1,3 +1,4 @@
+pub mod c05;
 pub mod c08;
 pub mod c09;
 pub mod c13;
@@ -9,6 +10,7 @@ use crate::engine::PropertySpec;
 
 pub fn spec(id: &str) -> Option<PropertySpec> {
     Some(match id {
+        "C05" => c05::spec(),
         "C08" => c08::spec(),
         "C09" => c09::spec(),
         "C13" => c13::spec(),
